@@ -187,7 +187,29 @@ package vecfc
 //@   ensures  [noB] gLA[bID] == nil ==> !result
 //@   ensures  [quorum] gHB[aID] != nil && gLA[bID] != nil && !(len(vi.Engine.bi.BranchIDCreatorIdxs) > len(vi.validators.values) && hbFork(deref(gHB[aID]), gBranchOf[bID])) ==>
 //@            result == (fcw(deref(gHB[aID]), deref(gLA[bID]), vi.Engine.bi.BranchIDCreatorIdxs, len(vi.Engine.bi.BranchIDCreatorIdxs), vi.validators.cache.weights, len(vi.validators.values)) >= vi.validators.cache.totalWeight*2/3 + 1)
+//@   ensures  [def] result == fcv(vi, aID, bID)
 //@   loop 1 modifies yes.sum, yes.already[*]
 //@   loop 1 invariant 0 <= _k && _k <= len(branchIDs) && cinv(yes) && yes.validators.values == vi.validators.values && yes.validators.cache.weights == vi.validators.cache.weights && yes.validators.cache.totalWeight == vi.validators.cache.totalWeight
 //@   loop 1 invariant forall(i, 0, len(vi.validators.values), yes.already[i] == cntd(deref(a), deref(b), branchIDs, _k, i))
 //@   loop 1 exithint use fcw_eq(deref(a), deref(b), branchIDs, _k, vi.validators.cache.weights, yes.already, len(vi.validators.values))
+//@
+//@ // fcv(vi, A, B): the forkless-cause condition over the stored vectors and the branches info (see forklessCause)
+//@ spec fcv(vi *Index, aID hash.Event, bID hash.Event) bool = gHB[aID] != nil && gLA[bID] != nil && !(len(vi.Engine.bi.BranchIDCreatorIdxs) > len(vi.validators.values) && hbFork(deref(gHB[aID]), gBranchOf[bID])) &&
+//@   fcw(deref(gHB[aID]), deref(gLA[bID]), vi.Engine.bi.BranchIDCreatorIdxs, len(vi.Engine.bi.BranchIDCreatorIdxs), vi.validators.cache.weights, len(vi.validators.values)) >= vi.validators.cache.totalWeight*2/3 + 1
+//@ // fcinv: the pair cache is a well-formed LRU cache that maps kv pairs to booleans
+//@ spec fckey(aID hash.Event, bID hash.Event) interface{} = box(mk("kv", aID, bID), "kv")
+//@ inv Index fcinv(vi): vi != nil && vi.cache.ForklessCause != nil && lruinv(vi.cache.ForklessCause) && within(vi.cache.ForklessCause) && vi.cache.ForklessCause.maxWeight <= 4611686018427387904 &&
+//@   forall(k interface{}, lhas(vi.cache.ForklessCause, k) ==> typeis(lval(vi.cache.ForklessCause, k), "bool"))
+//@
+//@ // ForklessCause answers from the pair cache if the pair is cached (and then reads no vector); otherwise the answer is
+//@ // the forkless-cause condition over the stored vectors, and it is cached under the pair
+//@ func (*Index).ForklessCause
+//@   requires vi != nil && vi.Engine != nil && vi.crit != nil && valid(vi.validators) && vi.Engine.validators == vi.validators && len(vi.validators.values) <= 536870911 && fcinv(vi)
+//@   requires vi.Engine.bi != nil ==> biwf(vi.Engine.bi, len(vi.validators.values))
+//@   modifies vi.Engine.bi, vi.cache.ForklessCause.items[*], vi.cache.ForklessCause.weight, lel[vi.cache.ForklessCause.evictList], llen[vi.cache.ForklessCause.evictList], lidx[*], lown[*], nEvict, gEvictKey, gEvictVal, all(simplewlru.entry).value, all(simplewlru.entry).weight
+//@   ensures  [inv] fcinv(vi)
+//@   ensures  [hit] old(lhas(vi.cache.ForklessCause, fckey(aID, bID))) ==> result == unbox(old(lval(vi.cache.ForklessCause, fckey(aID, bID))), "bool") && vi.Engine.bi == old(vi.Engine.bi)
+//@   at call simplewlru.Cache).Add[1] hint assert res == fcv(vi, aID, bID)
+//@   ensures  [miss] !old(lhas(vi.cache.ForklessCause, fckey(aID, bID))) ==> result == fcv(vi, aID, bID)
+//@   ensures  [cached] lhas(vi.cache.ForklessCause, fckey(aID, bID)) ==> unbox(lval(vi.cache.ForklessCause, fckey(aID, bID)), "bool") == result
+//@   ensures  [others] forall(k interface{}, k != fckey(aID, bID) && lhas(vi.cache.ForklessCause, k) ==> old(lhas(vi.cache.ForklessCause, k)) && lval(vi.cache.ForklessCause, k) == old(lval(vi.cache.ForklessCause, k)))
